@@ -125,8 +125,44 @@ pub fn c01_sizes(cfg: &Cfg) -> (u64, u64) {
     (scaled(cfg, 3, 6), scaled(cfg, 150_000, 10_000_000))
 }
 
+const C01_UNIVERSE: [&[u8]; 6] = [b"", b"a", b"aa", b"ab", b"b", b"ba"];
+const C01_VALUES: [u64; 3] = [0, 1, 256];
+const C01_GEOS: [Option<(usize, usize)>; 4] = [Some((0, 0)), Some((1, 1)), Some((2, 2)), Some((3, 3))];
+/// every map over the 6-key universe with values in {0, 1, 256} (4^6) x 4 geometries
+pub const C01_EXHAUSTIVE: u64 = 4096 * 4;
+
+fn c01_exhaustive_case(e: u64) -> BuildCase {
+    let geo = C01_GEOS[(e % 4) as usize];
+    let mut code = e / 4;
+    let mut items: Vec<Item> = Vec::new();
+    for k in C01_UNIVERSE.iter() {
+        let c = code % 4;
+        code /= 4;
+        if c > 0 {
+            items.push((k.to_vec(), C01_VALUES[(c - 1) as usize]));
+        }
+    }
+    let ops = if e % 8 < 4 {
+        items.iter().map(|(k, v)| Op::Ins(k.clone(), *v)).collect()
+    } else {
+        vec![Op::ExtIter(items.clone())]
+    };
+    BuildCase::clean(TaskSpec { front: Front::Map, registry: geo, ops, fin: Fin::IntoInner })
+}
+
 pub fn c01(cfg: &Cfg, idx: u64, st: &mut Stats) {
     let (bigs, _) = c01_sizes(cfg);
+    if idx >= bigs && idx < bigs + C01_EXHAUSTIVE {
+        let e = idx - bigs;
+        st.report("C01", &Case::Build(c01_exhaustive_case(e)));
+        if e == C01_EXHAUSTIVE - 1 {
+            st.notes.insert(
+                "exhaustive_small_scope".into(),
+                serde_json::json!("every map over the key universe {\"\",a,aa,ab,b,ba} with values in {0,1,256} (4096 maps) x cache geometries (0,0),(1,1),(2,2),(3,3)"),
+            );
+        }
+        return;
+    }
     let mut rng = rng_for(cfg, idx);
     if idx < bigs {
         let n = match cfg.tier {
